@@ -457,6 +457,16 @@ impl<VM: VMBinding> MarkSweepSpace<VM> {
         self.block_clear_metadata(block);
 
         block.deinit();
+        #[cfg(feature = "mmtk_verif")]
+        crate::verif::gc::ev(
+            crate::verif::gc::Kind::PrReleaseBlock,
+            crate::verif::gc::space_tag(
+                self.get_name(),
+                <Block as crate::util::linear_scan::Region>::BYTES
+                    >> crate::util::constants::LOG_BYTES_IN_PAGE,
+            ),
+            <Block as crate::util::linear_scan::Region>::start(&block).as_usize(),
+        );
         self.pr.release_block(block);
     }
 
